@@ -31,33 +31,40 @@ AsgSatisfies(cnf, a) == LET A == { a[i] : i \in 1..Len(a) } IN \A k \in 1..Len(c
 Pivots(C, D) == { l \in C : Neg(l) \in D }
 Resolve(C, D, l) == (C \ {l}) \cup (D \ {Neg(l)})
 Resolvents(C, D) == { Resolve(C, D, l) : l \in Pivots(C, D) }
-\* successive resolution: cur = set of clauses obtainable so far, pss[i] = set of possible readings of the i-th named clause
+\* successive resolution: cur = set of clauses obtainable so far, pss[i] = set of possible readings of the i-th named clause.
+\* (More than one reading arises only when two complementary pairs are available at a step -- never in a trace of a
+\*  CDCL run.  More than MaxReadings readings: the replay is given up and the trace counted as undecided, not as invalid.)
+MaxReadings == 16
+TooMany == { {<<0, TRUE>>, <<0, FALSE>>} }       \* marker value of the same kind as a set of clauses
 RECURSIVE ChainFrom(_, _, _)
 ChainFrom(cur, pss, i) ==
-  IF i > Len(pss) \/ cur = {} THEN cur
-  ELSE ChainFrom(UNION { UNION { Resolvents(C, D) : D \in pss[i] } : C \in cur }, pss, i + 1)
+  IF i > Len(pss) \/ cur = {} \/ cur = TooMany THEN cur
+  ELSE LET nxt == UNION { UNION { Resolvents(C, D) : D \in pss[i] } : C \in cur } IN
+       IF pss[i] = TooMany \/ Cardinality(nxt) > MaxReadings THEN TooMany ELSE ChainFrom(nxt, pss, i + 1)
 \* the clauses obtainable from the named clauses by successive resolution on a complementary pair ({} = not obtainable)
 ChainResolve(pss) == IF Len(pss) = 0 THEN {} ELSE ChainFrom(pss[1], pss, 2)
 
-\* known : function  clause id -> set of clauses that id may denote  (a singleton except when two
-\* complementary pairs were available, in which case every reading is a genuine resolvent)
+\* known : function  clause id -> set of clauses that id may denote
 Originals(cnf) == [ id \in 0..(Len(cnf) - 1) |-> { LitSet(cnf[id + 1]) } ]
 NoClauses == {}
 RECURSIVE Replay(_, _, _)
-\* returns [ok, known, last]: all learned clauses were obtained from the clauses they name; last = readings of the last one
+\* returns [ok, undecided, known, last]: ok = every learned clause was obtained from the clauses it names;
+\* last = readings of the last one
 Replay(proofs, j, acc) ==
   IF j > Len(proofs) THEN acc
   ELSE LET id == proofs[j][1]
            steps == proofs[j][2] IN
        IF id \in DOMAIN acc.known \/ Len(steps) = 0 \/ (\E s \in 1..Len(steps) : steps[s] \notin DOMAIN acc.known)
-       THEN [ok |-> FALSE, known |-> acc.known, last |-> NoClauses]
+       THEN [ok |-> FALSE, undecided |-> FALSE, known |-> acc.known, last |-> NoClauses]
        ELSE LET res == ChainResolve([s \in 1..Len(steps) |-> acc.known[steps[s]]]) IN
-            IF res = {} THEN [ok |-> FALSE, known |-> acc.known, last |-> NoClauses]
-            ELSE Replay(proofs, j + 1, [ok |-> TRUE, known |-> (id :> res) @@ acc.known, last |-> res])
-ReplayAll(cnf, proofs) == Replay(proofs, 1, [ok |-> TRUE, known |-> Originals(cnf), last |-> NoClauses])
+            IF res = {} THEN [ok |-> FALSE, undecided |-> FALSE, known |-> acc.known, last |-> NoClauses]
+            ELSE IF res = TooMany THEN [ok |-> FALSE, undecided |-> TRUE, known |-> acc.known, last |-> NoClauses]
+            ELSE Replay(proofs, j + 1, [ok |-> TRUE, undecided |-> FALSE, known |-> (id :> res) @@ acc.known, last |-> res])
+ReplayAll(cnf, proofs) == Replay(proofs, 1, [ok |-> TRUE, undecided |-> FALSE, known |-> Originals(cnf), last |-> NoClauses])
 \* "a resolution trace in which each learned clause is obtained from the named clauses by resolution
 \*  and the last one is empty"
 ValidRefutation(cnf, proofs) ==
   /\ Len(proofs) > 0
   /\ LET r == ReplayAll(cnf, proofs) IN r.ok /\ ({} \in r.last)
+RefutationUndecided(cnf, proofs) == Len(proofs) > 0 /\ ReplayAll(cnf, proofs).undecided
 =============================================================================
